@@ -150,17 +150,12 @@ def cut : List (Op × Out × List Event) → List (Op × Out × List Event)
     | .panic | .hang => [x]
     | _ => x :: cut xs
 
-/-- default configuration: (C) with the standard factory and expansion off, then C05's expansion of every message -/
+/-- default configuration: `Fit.DecApi.Default.run` — (C) with the standard factory and expansion off, then C05's expansion
+of every message (FitModel/DecoderApiDefault.lean) -/
 def answerDflt (l : Line) : String :=
-  let o' := Drv.DecApiStd.inner l.o
-  let ops' := l.ops.map (Drv.DecApiStd.innerOp l.o)
-  let res := run (Api.fresh o' (l.streams.headD [])) ops'
-  " ".intercalate (Drv.DecApiStd.walk l.verbose l.o {} (ops'.zip (res.map some)))
+  " ".intercalate (Drv.DecApiStd.answer l.verbose l.o (l.streams.headD []) l.ops)
 
-def specToksDflt (l : Line) : List String :=
-  let o' := Drv.DecApiStd.inner l.o
-  let ops' := l.ops.map (Drv.DecApiStd.innerOp l.o)
-  Drv.DecApiStd.walk l.verbose l.o {} (ops'.zip (specRun (Spec.fresh o' (l.streams.headD [])) ops'))
+def specToksDflt (l : Line) : List String := Drv.DecApiStd.specToks l.verbose l.o (l.streams.headD []) l.ops
 
 def answer (l : Line) : String :=
   if l.dflt then answerDflt l else
